@@ -111,7 +111,7 @@ def organics():
 
 
 # E/Z-labelled double bonds inside rings of eight and more atoms (RDKit labels them; smaller rings are cis by construction)
-MACROCYCLES = ["C1CCC/C=C/CC1", "C1CCC/C=C\\CC1", "C1CCCCC/C=C/CCCC1", "CC1CCCC/C=C/CCC1", "C1CC/C=C/CC/C=C/C1"]
+MACROCYCLES = ["C[C@H]1CCCCc2ccccc12", "C1CCCCc2ccccc12", "C1CCCCCc2ccccc12", "O=C1CCCCc2ccncc12", "C1CCC/C=C/CC1", "C1CCC/C=C\\CC1", "C1CCCCC/C=C/CCCC1", "CC1CCCC/C=C/CCC1", "C1CC/C=C/CC/C=C/C1"]
 
 
 @lru_cache(None)
